@@ -144,6 +144,13 @@ func c20Units(tier string) []Unit {
 		{"rejected-with-callbacks", alpha{scopes: []int{0, 1}, ctors: []*uFunc{u.D("DA", cb), u.D("DA2", cb), u.D("DB", cb), u.D("DC", cb)}, export: true,
 			decos: []*uFunc{u.D("DdA", cb), u.D("DdBe", cb)}, invokes: []*uFunc{iA, iB, iC}}, []string{"DdBe"}},
 	}
+	// re-entry through a decorator: the callback of the re-entered constructor
+	// fires for its one execution only
+	fams = append(fams,
+		fam{"reentry-single", alpha{scopes: []int{0, 1}, ctors: []*uFunc{pA, pB.With("pBcb", cb)},
+			decos: []*uFunc{dABae.With("dABaecb", cb)}, invokes: []*uFunc{iA, iB}}, []string{"dABaecb"}},
+		fam{"reentry-group", alpha{scopes: []int{0, 1}, ctors: []*uFunc{pA, fBgA.With("fBgAcb", cb)},
+			decos: []*uFunc{dGBAe.With("dGBAecb", cb)}, invokes: []*uFunc{iA, iGB}}, []string{"dGBAecb"}})
 	behs := [][]u.Beh{{u.BehOK}, {u.BehErr}, {u.BehPanic}, {u.BehErr, u.BehOK}}
 	if !q {
 		behs = append(behs, []u.Beh{u.BehErrVals, u.BehOK}, []u.Beh{u.BehPanic, u.BehOK})
